@@ -263,6 +263,9 @@ def fam_prim(c):
     L += c.enum(mod, "E_u8_fields", [("A", F0("u8"), None, 0), ("B", F0("u8"), None, 0)], repr="u8", family="ENUM")
     L += c.enum(mod, "E_u8_fields_pad", [("A", F0("u32"), None, 0), ("B", F0("u8"), None, 0)], repr="u8", family="ENUM")
     L += c.enum(mod, "E_u8C_fields", [("A", F0("u8", "u16"), None, 0), ("B", F0("u8", "u16"), None, 0)], repr="u8, C", family="ENUM")
+    L += c.enum(mod, "E_u8C_explicit_ne", [("A", [], 3, 0), ("B", [], 9, 0)], repr="u8, C", family="ENUM")
+    L += c.enum(mod, "E_C_explicit_ne", [("A", [], 2, 0), ("B", [], 5, 0)], repr="C", family="ENUM")
+    L += c.enum(mod, "E_u8C_explicit_fields_ne", [("A", F0("u32"), 2, 0), ("B", F0("u32"), 5, 0)], repr="u8, C", family="ENUM")
     L += c.enum(mod, "E_C_unit", [("A", [], None, 0), ("B", [], None, 0)], repr="C", family="ENUM")
     L += c.enum(mod, "E_plain_mixed", [("A", [], None, 0), ("B", F0("u32", "String"), None, 0),
                                        ("C", [Field("x", "u8"), Field("y", "Vec<u8>")], None, 0)], family="ENUM")
